@@ -5,7 +5,8 @@ Inductive invariant 0 <= used <= max from structural facts: every write of the t
 space atom for the same amount; increases happen on one thread only; the amounts agree with the weight map.
 """
 from core import (strip_site, root_calls, dashmap_call, lock_call, fmt, subexprs, is_call_to, field_path, mentions)
-from weight import WeightModel, subst_params
+from weight import WeightModel
+from core import subst_params, inline_ctor
 
 LEVEL = "other"
 EXPLANATION = ("Necessary-and-sufficient structural conditions for the invariant used <= max, checked on MIR: "
@@ -16,16 +17,6 @@ EXPLANATION = ("Necessary-and-sufficient structural conditions for the invariant
                "R01.4 amounts added/removed equal the weights recorded per id; R01.5 the space predicate is "
                "(max-used, max-used >= w). Arithmetic overflow of i64 is not decided.")
 ASSUMPTIONS = ["parking_lot RwLock gives atomic reads/writes of the total", "weights are positive (asserted at the API, see C17 R17.5)"]
-
-
-def inline_ctor(F, e):
-    """call to a local constructor-like function whose return value is one aggregate -> that aggregate over the args"""
-    if isinstance(e, tuple) and e[0] == "call" and e[1] in F.fns:
-        f = F.fns[e[1]]
-        r = f.origin_local(0)
-        if r[0] == "agg":
-            return subst_params(r, list(e[2]))
-    return e
 
 
 def run(ctx):
